@@ -50,6 +50,18 @@ def gen_script(rng, big, nops=None, close=True, after_close=False):
     return ops
 
 
+def cap_total(ops, cap, rng):
+    """Keep the total payload of a script below cap (quick tier: Coq evaluates the model on the same bytes)."""
+    tot = 0
+    for o in ops:
+        if o['op'] != 'w':
+            continue
+        if tot + o['len'] > cap:
+            o['len'] = rng.choice([0, 1, 5, 100]) if tot + 100 <= cap else 0
+        tot += o['len']
+    return ops
+
+
 def total_len(ops):
     return sum(o.get('len', 0) for o in ops if o['op'] == 'w')
 
@@ -287,6 +299,10 @@ def run_property(res, rng, pid, cases, nontrivial, bucket, trusted, assume, rule
     obs = core.run_harness(pid.lower(), cases, jobs=8, case_timeout='30s')
     res.extra['harness_s'] = round(time.time() - t0, 1)
     terms = []
+    for o in obs:
+        for k in ('members', 'w_k', 'w_started', 'api_k', 'accepted', 'cum', 'res', 'bad'):
+            if k in o and o[k] is None:
+                o[k] = []
     for c, o in zip(cases, obs):
         res.evaluations += 1
         if nontrivial(c, o):
@@ -305,7 +321,7 @@ def run_property(res, rng, pid, cases, nontrivial, bucket, trusted, assume, rule
         terms.append((c, o, coq_term(c, o, rng)))
     # big cases cost most: spread them over the shards
     terms.sort(key=lambda t: -total_len(t[0]['ops']))
-    nsh = 16
+    nsh = 6
     order = []
     for i in range(nsh):
         order.extend(terms[i::nsh])
@@ -335,6 +351,9 @@ def replay_case(pid, rp):
         print(json.dumps(rp, indent=1)[:3000])
         return 0
     o = core.run_harness(pid.lower(), [c], case_timeout='30s')[0]
+    for k in ('members', 'w_k', 'w_started', 'api_k', 'accepted', 'cum', 'res', 'bad'):
+        if k in o and o[k] is None:
+            o[k] = []
     fs = judge(c, o, pid)
     print('case     :', c)
     print('observed :', strip(o))
